@@ -42,7 +42,7 @@ def option_sets(draw, ntypes, types, encs):
 
 @st.composite
 def cases(draw, prof):
-    doc = draw(D.documents(D.profile(prof, kern_weight=3)))
+    doc = draw(D.documents(D.profile(prof, kern_weight=2 if prof == 'sep' else 3)))
     encs = list(K.ENCODINGS) if prof == 'agnostic' else ['kern', 'ekern', 'bkern', 'bekern']
     opts = [draw(option_sets(len(doc['types']), doc['types'], encs)) for _ in range(8)]
     return {'doc': doc, 'opts': opts, 'prof': prof}
@@ -89,6 +89,19 @@ def check(case):
     kdoc = K.loads_clean(text)
     a = S.analyze(doc)
     base = X.aligned(doc, kdoc, a)
+    if case['prof'] == 'sep':
+        # text cells may contain '@' / middle dot here (KF-SEP is tracked under C03): take, per encoding, what the
+        # UNFILTERED export writes for every non-note cell; a selection must not change a cell it keeps
+        encs_ = ['kern', 'ekern', 'bkern', 'bekern']
+        grids_ = {e: K.grid(K.dumps(kdoc, encoding=K.ENCODINGS[e])) for e in encs_}
+        if any(len(g) != len(base) or any(len(x) != len(y) for x, y in zip(g, base)) for g in grids_.values()):
+            # a text cell reduced to nothing by the separator stripping of KF-SEP can empty a whole row in one
+            # encoding only; that is the known finding, not an option interaction: nothing to compare here
+            return Result(classes=['profile=sep', 'sep-shapes-differ'])
+        for ri, row in enumerate(base):
+            for k, c in enumerate(row):
+                if 'members' not in c and c['kind'] != 'header':
+                    c['text_by_enc'] = {e: grids_[e][ri][k] for e in encs_}
     types = doc['types']
     keys, evals = [], 0
     default_text = K.dumps(kdoc)
@@ -144,6 +157,8 @@ def check(case):
                 raise Bad('explicit-default', f'explicit defaults {o["explicit"]} change the output: dumps({tag}) != dumps({K._kwrepr(kw2)})\n--- explicit\n{got}--- omitted\n{got2}', opts=o)
         # each option alone
         singles = []
+        if case['prof'] == 'sep':
+            continue  # the single-option clauses compare with the kern text of the model, which KF-SEP alters
         if ids is not None or tys is not None:
             kw1 = {k: v for k, v in kwargs_for(o, kdoc, False).items() if k in ('spine_ids', 'spine_types')}
             g1 = K.dumps(kdoc, **kw1)
@@ -179,6 +194,7 @@ def run(ctx):
     n = 120 if ctx.quick else 900
     ctx.run_hypothesis(cases('full'), check, max_examples=n, label='full')
     ctx.run_hypothesis(cases('agnostic'), check, max_examples=n, salt=1, label='agnostic')
+    ctx.run_hypothesis(cases('sep'), check, max_examples=max(30, n // 3), salt=2, label='separator-characters-in-text')
 
 
 def replay(case):
